@@ -49,6 +49,15 @@ CHECKS["C15"] = ("simsut", "exploration", "deterministic simulation: conservatio
 CHECKS["C19"] = ("simsut", "exploration", "deterministic simulation: replay determinism of seeded runs, filter-projection differential, crash/hang containment per case",
    "Each seeded case is simulated repeatedly from fresh queues (different real start instants) and must give identical traces; filtered outputs must be sub-sequences of the unfiltered run; any panic/abort/hang or bound overrun is a violation.",
    "Hang = 2 s CPU per case; integration delays never enabled.", "DESIGN.md §6 C19")
+CHECKS["C16"] = ("simsut", "exploration", "deterministic simulation: H2 processing log of seeded two-party simulations replayed against a per-side blocking model (expiry rule, all-allowed-bypass flag, bypass accounting), same-instant ties tolerated",
+   "Every BlockingBegin/BlockingEnd and every packet leaving strictly inside a blocking window is judged against a model built from the actions the frameworks returned; known findings D6 (zero-duration blocking) and D7 (bypass flag of the last action wins) are matched narrowly and reported as KNOWN-FINDING.",
+   "Causing action identified via the C17 model; simultaneous events are judged against every blocking state of their instant; when several simultaneous candidate actions differ the blocking is treated as unknown until it ends (counted as ambiguous_skipped).", "DESIGN.md §6 C16, §8")
+CHECKS["C17"] = ("simsut", "exploration", "deterministic simulation: H2 log replayed against a per-machine action-timer model; H2 log cross-checked by replaying each side through a fresh identically seeded framework",
+   "Every PaddingSent/BlockingBegin must be caused by the pending action (kind, due time), exactly once; nothing may be overdue once simulated time has moved on; superseding/cancelling at the due instant is a tolerated tie.",
+   "The actions acted upon come from the H2 hook and are validated against a fresh framework replay.", "DESIGN.md §6 C17")
+CHECKS["C18"] = ("simsut", "exploration", "deterministic simulation: H2 log replayed against a per-machine internal-timer model (UpdateTimer contract)",
+   "TimerBegin must follow an UpdateTimer of that instant and is owed whenever the action set or changed the timer; TimerEnd exactly once at the model's expiry, never for a cancelled/superseded timer (same-instant ties tolerated).",
+   "An UpdateTimer that changes nothing permits but does not require a TimerBegin.", "DESIGN.md §6 C18")
 NOT_YET = {}
 NA = {
  "C12": "pure predicate over one machine value: no history, clock, random draw, interleaving or stored-byte fault takes part in deciding whether validation accepts a value; deciding it is input generation (property-based testing), not deterministic simulation (DESIGN.md §7)",
